@@ -285,6 +285,14 @@ def null():
     return SX("null")
 
 
+def false():
+    return SX("literal", False, type_=_sa.Boolean())
+
+
+def true():
+    return SX("literal", True, type_=_sa.Boolean())
+
+
 def literal(value, type_=None, literal_execute=False):
     t = _inst(type_) if type_ is not None else _py_type(value)
     if value is None:
@@ -597,12 +605,12 @@ def contains_kind(x, kinds):
 def _den_bin(x, level):
     op, a, b = x.args
     da, db = den(a, level), den(b, level)
-    if op == "AND":
+    if op in ("AND", "OR"):
         _ax("SQL: AND / OR are three-valued (Kleene)")
-        return N.k_and(da, db)
-    if op == "OR":
-        _ax("SQL: AND / OR are three-valued (Kleene)")
-        return N.k_or(da, db)
+        # an untyped NULL operand is a boolean NULL here
+        da = N.null_of(N.BOOL) if (da.sort != N.BOOL and z3.is_true(da.null)) else da
+        db = N.null_of(N.BOOL) if (db.sort != N.BOOL and z3.is_true(db.null)) else db
+        return N.k_and(da, db) if op == "AND" else N.k_or(da, db)
     _ax("SQL: arithmetic and comparison operators are NULL iff an operand is NULL")
     if op in ("=", "!=", "<", "<=", ">", ">="):
         da, db = N.unify(da, db)
@@ -615,8 +623,9 @@ def _den_bin(x, level):
             ">=": lambda p, q: N.le_t(q, p),
         }[op]
         return N.lift(f, da, db)
-    if op == "+" and da.sort == STR:
+    if op == "+" and STR in (da.sort, db.sort):
         _ax("sqlalchemy: `+` on strings renders the concatenation operator")
+        da, db = N.unify(da, db)
         return N.lift(lambda p, q: z3.Concat(p, q), da, db)
     if op in ("+", "-", "*"):
         da, db = N.unify(da, db)
